@@ -6,6 +6,9 @@ props = [json.loads(l) for l in open(os.path.join(HERE, "properties.jsonl"))]
 
 HELD = "Held-on-what-was-executed (evidence lists executions, distinct cases and what the monitors observed); not a proof."
 CHECKS = {
+ "C01": ("runtime monitoring: panic monitor (panic hook + catch_unwind, worker-death attribution by the driver) over depth stress, builtin/operator matrices, exhaustive token sequences through the whole API surface, hostile strings through 48 entry points; release and dev (overflow-checks, debug-assertions) profiles; H1 parser-precondition hook; CLI binary in the thorough tier",
+         "Every call of the workload into the public API returned Ok or Err without unwinding or aborting, in both build profiles. " + HELD,
+         "8 MiB stack assumed (Linux main-thread default); allocation failure excluded; user functions do not panic.", "DESIGN.md §4 C01"),
  "C02": ("runtime monitor: differential oracle (reference Pratt parser from the README table) over exhaustive token sequences, exhaustive ASTs <= 3 operators x parenthesisations, random ASTs; H1 hook for parser-state coverage",
          "Every well-formed rendering produced by the workload is precompiled by the real parser and its tree compared structurally with the reference AST. " + HELD,
          "Trusts the reference lexer/parser (self-checked: render -> lex -> parse must give back every generated AST; README examples).", "DESIGN.md §4 C02"),
@@ -45,6 +48,12 @@ CHECKS = {
  "C14": ("runtime monitor: occurrence-list oracle from the generating AST for the 10 identifier iterators + renaming metamorphic test + unknown-identifier containment",
          "For every program of the workload the iterators list exactly the identifier occurrences in source order by class, and consistent renaming through the mutable iterators and the context leaves the result unchanged. " + HELD,
          "Trusts the reference parser (C02) for the AST and pre-order = source order for this grammar.", "DESIGN.md §4 C14"),
+ "C15": ("runtime monitoring + sanitizers: concurrent-equals-sequential result oracle under a hostile thread workload (barrier start, shared Arc<Node>/contexts, delay injection in user code), Miri (UB and data-race interpreter, many seeds) and ThreadSanitizer (thorough); Send + Sync decided by the type checker on an assertion crate",
+         "Every result obtained by any thread for any shared (tree, context) pair equalled the sequential result; Miri/TSan reported no race or UB on the schedules that occurred; the 8 public types are Send + Sync. " + HELD,
+         "Race detectors see only schedules that occurred; the static part is rustc's verdict.", "DESIGN.md §4 C15"),
+ "C16": ("runtime monitoring: serializer round-trip oracle (ron 0.8.1 and serde's StrDeserializer) for expression strings vs build_operator_tree and for HashMapContexts reachable through the API; the serde trait bounds are a compile-time precondition of the harness crate",
+         "Every expression string of the workload deserializes to the tree / error message precompilation gives; every context round-trips with identical variables (floats bit-exact), builtin switch and no functions. " + HELD,
+         "Trusts ron as transport (strings/values ron itself cannot carry are skipped after a transport self-check); built with cargo +1.81.0.", "DESIGN.md §4 C16"),
 }
 NOT_YET = "check under construction in this session (see DESIGN.md §4); will be claimed once its monitor is committed"
 
@@ -52,7 +61,7 @@ def chk(pid):
     tech, text, note, ref = CHECKS[pid]
     return {"property_id": pid, "quick_cmd": "./check %s quick" % pid, "thorough_cmd": "./check %s thorough" % pid,
             "evidence_file": "/verif/evidence/%s.json" % pid, "replay_cmd_template": "./check %s --replay {path}" % pid,
-            "engine": "evxmon", "level_claimed": {"category": "exploration", "text": text, "design_ref": ref},
+            "engine": {"C15": "evx-c15", "C16": "evx-c16"}.get(pid, "evxmon"), "level_claimed": {"category": "exploration", "text": text, "design_ref": ref},
             "level_note": note, "technique": tech}
 
 claimed = sorted(CHECKS)
@@ -62,8 +71,10 @@ man = {"version": 1,
                  "enable": "the harness crate /verif/monitor depends on evalexpr = { path = \"/repo\", features = [\"verif-hooks\"] }",
                  "baseline_off_cmd": "cd /repo && cargo test --workspace --no-fail-fast --offline",
                  "source_commits": ["283c553", "ebe8483", "bb09e62"], "add_only": True},
-       "engines": [{"name": "evxmon", "path": "/verif/monitor", "serves_properties": claimed,
-                    "kind_free_text": "Rust harness (no external crates): reference lexer/parser/evaluator/builtins, recording contexts, panic monitor, hook sinks; sharded over worker processes by /verif/check (python3 driver: merging, known findings, evidence, replay)"}],
+       "engines": [{"name": "evxmon", "path": "/verif/monitor", "serves_properties": [c for c in claimed if c not in ("C15", "C16")],
+                    "kind_free_text": "Rust harness (no external crates): reference lexer/parser/evaluator/builtins, recording contexts, panic monitor, hook sinks; sharded over worker processes by /verif/check (python3 driver: merging, known findings, evidence, replay)"},
+                   {"name": "evx-c15", "path": "/verif/c15", "serves_properties": ["C15"], "kind_free_text": "thread stress binary run natively, under cargo +nightly miri (many seeds) and under ThreadSanitizer (-Zbuild-std); /verif/sendsync holds the compile-time Send+Sync assertions"},
+                   {"name": "evx-c16", "path": "/verif/c16", "serves_properties": ["C16"], "kind_free_text": "serde/ron round-trip binary built with cargo +1.81.0 against evalexpr[serde]"}],
        "checks": [chk(p) for p in claimed],
        "notes": "All checks: ./check <id> quick|thorough; VERIF_SEED selects the random part. Known findings: /verif/known_findings.json (all ten defects found on the pinned tree were repaired by `fix:` commits in /repo, so it holds only `fixed` entries).",
        "not_applicable": [{"property_id": p["id"], "reason": NOT_YET} for p in props if p["id"] not in CHECKS]}
